@@ -674,6 +674,13 @@ class DiscreteFourierTransformInverse(DiscreteFourierTransformBase):
         effort = flags[0] if flags else 'measure'
 
         direction = 'forward' if self.sign == '-' else 'backward'
+        if is_real_dtype(out.dtype) and not self.halfcomplex:
+            # C2R without halfcomplex: the transform itself is C2C, the
+            # real part of the result is returned (as in the Numpy backend)
+            out_r, out = out, np.empty(out.shape, dtype=x.dtype)
+        else:
+            out_r = None
+
         self._fftw_plan = pyfftw_call(
             x, out, direction=direction, axes=self.axes,
             halfcomplex=self.halfcomplex, planning_effort=effort,
@@ -683,6 +690,10 @@ class DiscreteFourierTransformInverse(DiscreteFourierTransformBase):
         # does not offer a way to do this.
         if self.sign == '-':
             out /= np.prod(np.take(self.domain.shape, self.axes))
+
+        if out_r is not None:
+            out_r[:] = out.real
+            out = out_r
 
         return out
 
